@@ -132,8 +132,8 @@ def _run_solve(cfg):
     viol = []
     for backend in ('python', 'cpp'):
         kw = {'eps': eps, 'preconditioner': cfg['prec'], 'use_cpp': backend == 'cpp'}
-        if cfg['x0'] == 'rank2':
-            kw['x0'] = build(space.tensor_struct(N, [1] + [2] * (len(N) - 1) + [1], 'f64', 'gauss'), 'x0', 0)[0]
+        if cfg['x0'] != 'none':
+            kw['x0'] = build(space.tensor_struct(N, [1] + [int(cfg['x0'][4:])] * (len(N) - 1) + [1], 'f64', 'gauss'), 'x0', 0)[0]
         if cfg['solver'] == 'gmres':
             kw.update(max_full=0, local_solver=1)
         elif cfg['solver'] == 'bicgstab':
